@@ -5,6 +5,15 @@ V = os.path.dirname(os.path.dirname(os.path.abspath(__file__)))
 props = [json.loads(l) for l in open(os.path.join(V, "properties.jsonl"))]
 
 CLAIMS = {
+ "C04": dict(
+   text="Literals.tla holds the specified readers (single/multi-line strings with the documented escapes and dedent rules, integers in "
+        "four bases, fixed-point decimals, position coordinates) and the printer's choice function. TLC (a) shows at design level that "
+        "every string <=4/5 over the 7 critical characters that the printer design cannot print falls into a named class, (b) judges "
+        "every recorded value->real printer->real compiler round trip (all strings <=4/5 x 9 printing contexts x both decompilers, "
+        "unicode/random strings, every non-string token through every printing position) and every literal spelling->real compiler "
+        "record against the specified readers.",
+   ref="§3 C04", technique="TLC evaluation of the Literals.tla reader/printer model over recorded print->parse and spelling->value cases, plus design-level exploration of the printer model",
+   note="bounded alphabets/lengths + sampled unicode; three listed known findings (backslash, common indentation, line-break-like characters); only documented escapes in the spelling direction"),
  "C02": dict(
    text="For every well-formed routine set of the bounded families (all flow graphs <=4 ops over a 9-kind alphabet, every opcode family "
         "with special syntax, random graphs, renumbered compile results, re-laid-out variants whose equivalence TLC checks first) the "
